@@ -30,10 +30,10 @@ fn sequence<F: Family>(input: &Input, ctx: &mut Ctx) -> CaseResult {
     let mut encs: Vec<Vec<u8>> = Vec::new();
     let mut big = false;
     for _ in 0..n {
-        let p = if ctx.thorough && !big && t.chance(1, 48) {
+        let p = if ctx.thorough && !big && t.chance(1, 400) {
             big = true;
             // a packet with a 4-byte remaining length in the middle of the stream
-            c01::sized_publish::<F>(2_097_152 + t.pick(1000))
+            c01::sized_publish::<F>([2_097_150usize, 2_097_151, 2_097_152, 2_097_153, 2_097_154, 2_097_155, 2_097_156, 2_098_000][t.pick(8)])
         } else {
             let cfg = if t.chance(1, 8) { GenCfg::MEDIUM } else { GenCfg::SMALL };
             F::gen(&mut t, &cfg).map_err(|e| Violation::new(e.0))?
@@ -63,6 +63,25 @@ fn sequence<F: Family>(input: &Input, ctx: &mut Ctx) -> CaseResult {
                 fam::render(p),
                 hex_short(&stream, 64)
             ),
+        }
+        // a slice decoder fed from a growing buffer must report "incomplete" while a byte is missing
+        let plen = encs[i].len();
+        if plen >= 2 {
+            for miss in [1usize, 2] {
+                if plen > miss && (plen < 100_000 || miss == 1) {
+                    match F::decode(&stream[off..off + plen - miss]) {
+                        Ok(None) => {}
+                        other => viol!(
+                            "blocking decoder on packet {} of {} with its last {} byte(s) not yet delivered returned {:?} instead of Ok(None); packet is {} bytes",
+                            i + 1,
+                            n,
+                            miss,
+                            other.map(|o| o.map(|q| fam::render(&q))),
+                            plen
+                        ),
+                    }
+                }
+            }
         }
         off += match F::encode_len(p) {
             Ok(x) => x,
